@@ -91,6 +91,11 @@ def event_projects():
                                                                "    app.emit(\"left-half\", &left).unwrap();\n    for item in items() {\n        app.emit(\"item-seen\", item).unwrap();\n    }\n"
                                                                "    if let Some(found) = lookup() {\n        app.emit(\"found\", found.clone()).unwrap();\n    }\n"
                                                                "    let notify = |progress| app.emit(\"progress\", progress).unwrap();\n    notify(1);\n}\n")]))
+    # structs without a single serialised field, used where a TYPE is needed (return, payload, channel message), not a schema
+    empties = ("#[derive(Serialize, Deserialize)]\npub struct Ack;\n\n#[derive(Serialize, Deserialize)]\npub struct Heartbeat {\n    #[serde(skip)]\n    pub at: u64,\n}\n\n"
+               "#[derive(Serialize, Deserialize)]\npub struct Nothing {}\n\n")
+    P.append(("field-less-structs-as-types", [("lib.rs", a + empties + rg.command_src("acknowledge", [("id", "i32")], "Ack") + rg.command_src("subscribe", [("on_beat", "Channel<Heartbeat>")], "Vec<Nothing>") +
+                                                "pub fn beat(app: AppHandle, h: Heartbeat) {\n    app.emit(\"beat\", h).unwrap();\n}\n\npub fn done(app: AppHandle) {\n    app.emit(\"done\", Ack).unwrap();\n}\n")]))
     P.append(("no-events", [("lib.rs", a)]))
     # no command takes anything from the frontend: commands.ts still needs its `types` import for what the commands return
     for k, rets in enumerate((["Vec<Foo>"], ["Option<Foo>", "Result<Vec<Kind>, String>"], ["HashMap<String, Wrap>", "(Foo, Kind)"], ["Result<Option<Vec<Foo>>, String>"], ["Foo"], ["Vec<Foo>", "i32"])):
